@@ -333,12 +333,23 @@ fn regression_sources() -> Vec<(String, String)> {
 
 fn part_pipeline(ev: &mut Ev, opts: &Opts) {
     let mut corpus = regression_sources();
-    ev.set_extra("regression_sources", json!(corpus.len()));
+    let n_regression = corpus.len();
+    ev.set_extra("regression_sources", json!(n_regression));
     corpus.extend(srcgen::corpus_all());
     let mut shrunk = HashSet::new();
     let mut good: Vec<(String, String)> = vec![];
-    for (label, src) in &corpus {
+    for (index, (label, src)) in corpus.iter().enumerate() {
         let v = pipeline::check_source(src);
+        if index < n_regression {
+            // regression inputs are checked, but generated sources derive from the repository's own
+            // corpora only (minimised failure inputs make poor seeds: they sit on known defects)
+            ev.hit(&format!("pipeline:regression:{}", v.kind()));
+            ev.case(&("regression", src), true);
+            if matches!(v, Verdict::Fail { .. }) {
+                report_pipeline_failure(ev, label, src, &v, &mut shrunk);
+            }
+            continue;
+        }
         ev.hit(&format!("pipeline:corpus:{}", v.kind()));
         ev.case(&("corpus", src), !matches!(v, Verdict::NotParseable));
         match &v {
